@@ -494,3 +494,11 @@ def public_copy(ctx):
                             'after wallet.public_master(account_id=N) the wallet derives public-only keys for account N')
             elif src is None or not any(src.startswith(p_) for p_ in ('copy(self)', 'deepcopy(self)', 'copy.copy(self)', 'copy.deepcopy(self)')):
                 ctx.unsure('%s: origin of `%s` not recognised: %s' % (q, name, src))
+
+
+@PROP.obligation('C09.arg-binding')
+def arg_binding(ctx):
+    """Calls inside wallets that pass two or more positional arguments: a variable passed positionally must not land on a parameter of another
+    name while the callee has a parameter of the variable's own name elsewhere (argument inserted / dropped / swapped)."""
+    from .common_argsel import arg_binding as run
+    run(ctx, ['wallets'], 'the wallet method is called with shifted arguments: keys of another account / witness type / network')
